@@ -31,6 +31,7 @@ FAMILIES = dict(
     nestedtry=("s", "trye", "raise", "return"),
     tryret=("s", "if", "trye", "return", "raise"),
     tryfin=("s", "tryef", "tryf", "raise", "return"),
+    tryelse=("s", "if", "while", "tryel", "tryelf", "return", "raise", "break", "continue"),
     finnest=("s", "if", "while", "tryf", "raise"),       # try/finally statements nested in finally blocks, under conditions and loops
 )
 
@@ -182,6 +183,9 @@ class Decorator:
                 hname = r.choice(['', '', 'ex', r.choice(self.names)])
                 N[i - 1]['handlers'] = [dict(cls=1 if r.random() < self.pexc else 2, name=hname,
                                              body=self.block(b, fn, scope + (['ex'] if hname == 'ex' else [])))]
+            if self.peek() == 'else':
+                self.take()
+                N[i - 1]['orelse'] = self.block(b, fn, scope)
             if self.peek() == 'finally':
                 self.take()
                 N[i - 1]['final'] = self.block(b, fn, scope)
